@@ -5,7 +5,7 @@ import collections
 from checks.common import UdpCheck, Monitor, gen_traffic, limits
 from checks.c01 import snapshot, SNAP_NAMES
 from world.attacker import Attacker
-from world.udpworld import PacketType
+from world.udpworld import accepted, PacketType
 
 
 def dg(b):
@@ -51,7 +51,7 @@ class DupMonitor(Monitor):
         cn, d, o, snap0, dropped0 = pre
         w = self.w
         if o is None:
-            if result is True:
+            if accepted(result):
                 self.n_acc[cn] += 1
                 acc = self.accepted[cn]
                 acc[d] = (self.n_acc[cn], int(hdr.seq))
